@@ -3,6 +3,7 @@ import FlexiVerif.Model.Names
 import FlexiVerif.Model.Bg
 import FlexiVerif.Model.FlwTrace
 import FlexiVerif.Model.WMode
+import FlexiVerif.Model.Builder
 import Driver.Codec
 /-
   Driver for the `Flw` model (C01, C06, C07, C08, C09, C11, C14, C15, C16, C18, C19).
@@ -18,6 +19,7 @@ structure St where
   linkText : String := "-"               -- rendered symlink target (rendered when it was created)
   asyncMode : Bool := false              -- MODE async:..
   asyncDead : Bool := false              -- the async writer thread has been shut down
+  builderOrder : Nat := 0                -- NOTE builder-order: the order of the builder calls of the logger-driven cases
   mode : Option WMode.WMode := none      -- MODE: the PUBLIC write mode; the buffer capacity the model runs with is derived from it
 
 /-- the `MODE` line names a public `WriteMode` variant -/
@@ -350,6 +352,21 @@ def step (s : St) (toks : List String) : St × String :=
       let fin := (FV.Bg.drainAll k m sys).d.map (fun f => s!"{f.id}{if f.gz then "g" else "p"}")
       (s, (if ops.isEmpty then "-" else ",".intercalate ops) ++ "|" ++ (if fin.isEmpty then "-" else " ".intercalate fin))
     | _, _ => (s, "bad-op")
+  | ["NOTE", "builder-order", n] => ({ s with builderOrder := n.toNat?.getD 0 }, "ok")
+  -- do the names of the files carry the start time? The harness builds its logger with the calls
+  -- of the noted order; with rotation and a non-standard order the FileSpec leaves the start time
+  -- undecided, otherwise it suppresses it (`Model/Builder`)
+  | ["HASSTART"] =>
+    let rot := s.st.cfg.rot.isSome
+    let ts : FV.Builder.Ts := if rot && s.builderOrder > 0 then .dflt else .no
+    let rotCall : List FV.Builder.Call := if rot then [.rotate] else []
+    let oRot : FV.Builder.Call := .oRotate rot
+    let calls : List FV.Builder.Call :=
+      if s.builderOrder = 1 then rotCall ++ [.fileSpec ts]
+      else if s.builderOrder = 2 then [.fileSpec ts, oRot]
+      else if s.builderOrder = 3 then [oRot, .fileSpec ts]
+      else [.fileSpec ts] ++ rotCall
+    (s, if FV.Builder.hasStartTime (FV.Builder.build calls) then "1" else "0")
   | "NOTE" :: _ => (s, "ok")
   | ["MODE", m] =>
     match parseMode m with
